@@ -23,7 +23,8 @@ RULE = ('case = fast configuration x schedule over the six trigger kinds on eith
         'previous was answered, retransmissions byte-identical, responses mirror a received request (ID, exchange type), '
         'version 2.0, SPIs of a session known to the reference observer, I flag = sender is the IKE_SA\'s original initiator, '
         'R flag = response. Non-trivial = at least one duplicate or stale delivery reached the window check of an existing '
-        'IKE_SA; distinct by the sequence of (exchange, kind, window class) of such deliveries.')
+        'IKE_SA; distinct by the sequence of (exchange, kind, window class) of such deliveries. '
+        'Also: authentic in-window requests whose exchange type is rewritten (the reply is an error of the request\'s exchange type), and late copies of the IKE_SA_INIT request handed to the responder IKE_SA objects directly (the loop never routes one to an existing IKE_SA): stored response only while half-open, nothing afterwards.')
 ASSUMPTIONS = [
     'IKE_SA_INIT is outside the request-window clauses (its retries legitimately reuse ID 0); its headers are still checked',
     'start_dpd_at is not part of the "unchanged" snapshot: an authentic duplicate legitimately proves liveness',
